@@ -36,22 +36,42 @@ def _dest(kind, n):
 
 
 def run_case(case):
+    if case["kind"] == "pair":
+        # two sequences for two buses taking turns command by command; each is judged on its own
+        from .unitsim import drive_interleaved
+        parts = [_prepare(c) for c in case["pair"]]
+        res = drive_interleaved([(mk, ans) for mk, ans, _ in parts], 300, case.get("burst", 1))
+        return [fin(ev, out, case) for (_, _, fin), (ev, out) in zip(parts, res)]
+    if case["kind"] in ("qdt", "qg", "sg"):
+        mk, ans, fin = _prepare(case)
+        try:
+            ev, out = drive(mk(), ans, 300)
+        except Exception as e:  # noqa: refusal when the sequence is created
+            ev, out = [], {"exc": type(e).__name__, "ret": None}
+        return fin(ev, out, case)
+    return _run_adv(case)
+
+
+def _prepare(case):
     from dali import sequences
     kind = case["kind"]
     if kind == "qdt":
         gear = [Gear(short=case["short"], dts=case["dts"]), Gear(short=(case["short"] + 1) % 64, dts=[2])]
         cfg = _cfg(gear)
         bus = GearBus(gear)
-        ev, out = drive(sequences.QueryDeviceTypes(_dest(case["dk"], case["short"])), _answerer(bus), 300)
-        return {"seq": "QueryDeviceTypes", "cfg": cfg, "adv": 0, "ev": ev,
-                "out": {"exc": out["exc"], "ret": out["ret"] if isinstance(out["ret"], list) else [-1]}, "case": case}
+        return (lambda: sequences.QueryDeviceTypes(_dest(case["dk"], case["short"]))), _answerer(bus), (
+            lambda ev, out, top: {"seq": "QueryDeviceTypes", "cfg": cfg, "adv": 0, "ev": ev,
+                                  "out": {"exc": out["exc"], "ret": out["ret"] if isinstance(out["ret"], list) else [-1]},
+                                  "case": top})
     if kind == "qg":
         gear = [Gear(short=case["short"], groups=case["groups"])]
         cfg = _cfg(gear)
         bus = GearBus(gear)
-        ev, out = drive(sequences.QueryGroups(_dest(case["dk"], case["short"])), _answerer(bus), 300)
-        ret = sorted(out["ret"]) if isinstance(out["ret"], (set, frozenset)) else [-1]
-        return {"seq": "QueryGroups", "cfg": cfg, "ev": ev, "out": {"exc": out["exc"], "ret": ret}, "case": case}
+        return (lambda: sequences.QueryGroups(_dest(case["dk"], case["short"]))), _answerer(bus), (
+            lambda ev, out, top: {"seq": "QueryGroups", "cfg": cfg, "ev": ev,
+                                  "out": {"exc": out["exc"],
+                                          "ret": sorted(out["ret"]) if isinstance(out["ret"], (set, frozenset)) else [-1]},
+                                  "case": top})
     if kind == "sg":
         # unit 1 is the addressed unit (short 5); unit 2 a bystander that may share a group / be unaddressed
         gear = [Gear(short=case.get("s1", 5), groups=case["cur"]), Gear(short=case["s2"], groups=case["cur2"])]
@@ -61,9 +81,16 @@ def run_case(case):
         dest = _dest(dk, dn)
         target = [1 if bus._addressed(g, {"short": ("gshort", dn), "int": ("gshort", dn), "group": ("ggroup", dn),
                                           "bcast": ("gbcast", 0), "unaddr": ("gunaddr", 0)}[dk]) else 0 for g in gear]
-        ev, out = drive(sequences.SetGroups(dest, set(case["want"])), _answerer(bus), 300)
-        return {"seq": "SetGroups", "cfg": cfg, "ev": ev, "out": {"exc": out["exc"]}, "want": sorted(case["want"]),
-                "target": target, "readable": 1 if dk in ("short", "int") else 0, "case": case}
+        return (lambda: sequences.SetGroups(dest, set(case["want"]))), _answerer(bus), (
+            lambda ev, out, top: {"seq": "SetGroups", "cfg": cfg, "ev": ev, "out": {"exc": out["exc"]},
+                                  "want": sorted(case["want"]), "target": target,
+                                  "readable": 1 if dk in ("short", "int") else 0, "case": top})
+    raise AssertionError(kind)
+
+
+def _run_adv(case):
+    from dali import sequences
+    kind = case["kind"]
     if kind in ("qdtadv", "qgadv"):
         stream = case["ans"]
         pos = {"k": 0}
@@ -124,6 +151,14 @@ def cases(tier, seed):
             # gear without a short address: none, one or both of the two units
             c["s1"] = rng.choice([5, 255, 255])
         cs.append(c)
+    # two sequences (two buses, one process) running interleaved: neither sees anything of the other
+    sgs = [c for c in cs if c["kind"] == "sg"]
+    grp = [c for c in sgs if c["dest"][0] in ("group", "bcast", "unaddr")]
+    others = [c for c in cs if c["kind"] in ("qdt", "qg")]
+    for k in range(300 if tier == "quick" else 6000):
+        a = rng.choice(grp if k % 2 else sgs)
+        b = rng.choice(grp if k % 3 else sgs + others[:200])
+        cs.append({"kind": "pair", "pair": [a, b], "burst": 1 + (k % 5 == 0) + 3 * (k % 7 == 0)})
     # adversarial streams
     # a framing error carries whatever data bits the gateway made out: also the values that mean something (254, 255, a type)
     a1 = [["none", 0], ["err", 255], ["err", 254], ["val", 0], ["val", 1], ["val", 6], ["val", 254], ["val", 255]]
@@ -155,7 +190,9 @@ def run(tier, seed, replay=None):
             cs = cases(tier, seed)
         else:
             cs = [replay["case"]["case"]]
-        recs = core.pmap(run_case, cs, chunksize=256)
+        recs = []
+        for r_ in core.pmap(run_case, cs, chunksize=256):
+            recs.extend(r_ if isinstance(r_, list) else [r_])
         for ix, rec in enumerate(recs, 1):
             rec["id"] = ix
         slim = [{k: v for k, v in rec.items() if k != "case"} for rec in recs]
